@@ -106,10 +106,44 @@ func sortLogNamesOldToNew(dirEntries []os.DirEntry) []string {
 	//   $ test-app /var/log/audit/
 	//   [audit.log.4 audit.log.3 audit.log.2 audit.log.1 audit.log]
 	sort.Slice(oldestToNew, func(i, j int) bool {
+		ni, iok := logRotationNumber(oldestToNew[i])
+		nj, jok := logRotationNumber(oldestToNew[j])
+
+		switch {
+		case iok && jok && ni != nj:
+			// A higher rotation number means an older log.
+			return ni > nj
+		case iok != jok:
+			// A rotated log is older than the live log.
+			return iok
+		}
+
 		return oldestToNew[i] > oldestToNew[j]
 	})
 
 	return oldestToNew
+}
+
+// logRotationNumber returns the numeric rotation suffix of a rotated
+// audit log file name (e.g., 10 for "audit.log.10").
+func logRotationNumber(name string) (uint64, bool) {
+	const prefix = "audit.log."
+
+	if !strings.HasPrefix(name, prefix) || len(name) == len(prefix) {
+		return 0, false
+	}
+
+	var n uint64
+
+	for _, c := range name[len(prefix):] {
+		if c < '0' || c > '9' {
+			return 0, false
+		}
+
+		n = n*10 + uint64(c-'0')
+	}
+
+	return n, true
 }
 
 // LogDirReader reads audit logs from a directory and tails the active
